@@ -27,12 +27,13 @@ class Mismatch(Exception):
 
 
 class Handle:
-    __slots__ = ("obj", "res", "path", "real", "kind", "attached", "born")
+    __slots__ = ("obj", "res", "path", "real", "kind", "attached", "born", "unlinked")
 
     def __init__(self, obj, res, path, real, kind, born=0):
         self.obj, self.res, self.path, self.real, self.kind = obj, res, tuple(path), real, kind
         self.attached = True
         self.born = born
+        self.unlinked = False    # its position was reassigned / removed through its own object
 
 
 def get_path(doc, path):
@@ -107,6 +108,29 @@ def touched_children(kind, m, a, kw, n_before, model_out, real_out):
     if m in ("append", "extend", "iadd"):
         return set()
     return ALL
+
+
+def unlinked_children(kind, m, a, n_before, model_out):
+    """Children whose node the op certainly REPLACES or REMOVES (the old child object is no longer
+    part of the tree: like the old value of ``d[k]`` after ``d[k] = {...}`` on a built-in dict).
+    In-place merges (update/reset) and index shifts are not included."""
+    if kind == "dict":
+        if m in ("setitem", "delitem", "pop"):
+            return {a[0]} if a and isinstance(a[0], str) else set()
+        if m == "popitem" and model_out is not None and model_out.ok and model_out.value:
+            return {model_out.value[0]}
+        if m == "clear":
+            return ALL
+        return set()
+    if m == "clear":
+        return ALL
+    if m in ("setitem", "delitem", "pop"):
+        if m == "pop" and not a:
+            return {n_before - 1} if n_before else set()
+        if a and isinstance(a[0], int) and not isinstance(a[0], bool):
+            i = a[0] + n_before if a[0] < 0 else a[0]
+            return {i} if 0 <= i < n_before else set()
+    return set()
 
 
 class World:
@@ -358,11 +382,14 @@ class World:
                 sel = touched_children(h.kind, m, a, kw, n_before, model, real)
                 P = h.path
                 shared = "shared_tree_detach" in self.excl and self.ci.buffered == "memory"
+                unl = unlinked_children(h.kind, m, a, n_before, model)
                 for g in self.handles:
                     same = g.obj == h.obj or (shared and g.res == h.res)
                     if g.attached and same and len(g.path) > len(P) and g.path[:len(P)] == P:
                         if sel is ALL or g.path[len(P)] in sel:
                             g.attached = False
+                            if g.obj == h.obj and (unl is ALL or g.path[len(P)] in unl):
+                                g.unlinked = True
                             if g.obj != h.obj:
                                 self.excluded += 1
             elif before_doc != self.docs[h.res]:
@@ -374,6 +401,26 @@ class World:
         if mut and self.check_resource:
             self.check_res(h.res, step=s)
         return True
+
+    def _s_stale_op(self, s):
+        """A mutation through a child handle whose position was reassigned or removed through its own
+        object. On a built-in structure the old child is no longer part of the document, so
+        whatever the call does (or raises), the data of the collection must not change."""
+        i = s["h"]
+        if not (0 <= i < len(self.handles)):
+            return False
+        h = self.handles[i]
+        if not h.unlinked or h.real is None or h.res in self.poisoned:
+            return False
+        ops.real_apply(h.real, h.kind, s["m"], dec(s.get("a", [])), {}, self._resolve_real)
+        self.events["mutation_through_unlinked_handle"] += 1
+        self.check_res(h.res, step=s)
+        for g in self.handles:
+            if g.attached and not g.path and g.res == h.res and g.real is not None:
+                got = plain(g.real())
+                if got != self.docs[g.res]:
+                    raise Mismatch("read_after_stale_handle_mutation", step=s, got=got,
+                                   expected=copy.deepcopy(self.docs[g.res]))
 
     # ------------------------------------------------------------------ oracles
     def check_res(self, r, step=None):
